@@ -291,6 +291,9 @@ func (p *Path) emit(cmd string) {
 // decide records a decision and opens a solver level for it.
 func (p *Path) decide(d Decision) {
 	p.taken = append(p.taken, d)
+	if trailLog != nil && p.w.curFrame != nil {
+		p.w.whereLog = append(p.w.whereLog, p.w.curFrame.where(p.w.curInstr.Pos()))
+	}
 	if len(p.taken) <= p.suppress {
 		return
 	}
@@ -869,6 +872,8 @@ func (p *Path) violation(kind, msg, where string, vals map[string]ModelVal) {
 			vals = p.w.lastVals
 		} else if v == Unsat {
 			panic(pathEnd{"violation on infeasible path"})
+		} else {
+			panic(engineError{"solver unknown on the path of a violation: " + msg})
 		}
 	}
 	vio := Violation{Harness: p.w.ex.harness, Kind: kind, Msg: msg, Where: where, Trail: trailString(p.taken)}
